@@ -1374,6 +1374,7 @@ COMPLETE_REPAIRS = [("sign-dropped-under-explicit-bound", rep_sign),
                     ("field-wrapper-holding-None", rep_wrapper_none),
                     ("Decimal-value-serialized-as-string", rep_decimal),
                     ("bool-value-under-numeric-field", rep_bool_number),
+                    ("Enum-literals-compared-with-Python-equality", rep_enum_python_eq),
                     ("NotField-evaluated-on-serialized-form", rep_not),
                     ("OneOf-evaluated-on-serialized-form", rep_oneof),
                     # repaired in the library (serialize_val gives Tuple elements their item fields): tried last, so that a
